@@ -32,6 +32,7 @@ fn lookup(id: &str) -> Option<Box<dyn Prop>> {
 /// C20: one worker case per environment script; the parent aggregates the exploration statistics
 fn c20_main(tier: Tier) -> i32 {
     let t0 = std::time::Instant::now();
+    std::env::set_var("VERIF_C20_STATS", format!("{}/.work/C20-stats-{}", vcheck::root(), std::process::id()));
     let _ = std::fs::remove_dir_all(c20::stats_dir());
     let mut prop = c20::C20::new();
     let rr = match runner::run_parent(&mut prop, tier) {
@@ -87,6 +88,7 @@ fn c20_main(tier: Tier) -> i32 {
     }
     let mut unlisted = 0;
     let mut known = 0;
+    let _ = std::fs::remove_dir_all(c20::stats_dir());
     let mut viol_json = vec![];
     for (sig, (_idx, body, detail, n)) in &sigs {
         let mut b = body.clone();
